@@ -94,6 +94,59 @@ func rulePrintForm(c *core.Ctx, rule, ruleNotes string) {
 				}
 			}
 		}
+		// Fprintf(w, "  %s\n", "# "+name+": "+value): a %s that is given strings put together with "+" spells the
+		// format those pieces spell ("  # %s: %s\n" with name and value)
+		if callee.String() == "fmt.Fprintf" && w.consts {
+			var outF strings.Builder
+			var outArgs []absint.Value
+			ai := 0
+			changed := false
+			for i := 0; i < len(w.format); i++ {
+				if w.format[i] != '%' || i+1 >= len(w.format) {
+					outF.WriteByte(w.format[i])
+					continue
+				}
+				if w.format[i+1] == '%' {
+					outF.WriteString("%%")
+					i++
+					continue
+				}
+				j := i + 1
+				for j < len(w.format) && strings.IndexByte("+-# 0123456789.", w.format[j]) >= 0 {
+					j++
+				}
+				if j >= len(w.format) {
+					outF.WriteString(w.format[i:])
+					break
+				}
+				verb := w.format[i : j+1]
+				var arg absint.Value
+				if ai < len(w.args) {
+					arg = w.args[ai]
+				}
+				ai++
+				if t, isT := arg.(*absint.Term); isT && verb == "%s" && t.Op == "+" {
+					for _, piece := range t.Args {
+						if l, ok := absConstString(piece); ok {
+							outF.WriteString(strings.ReplaceAll(l, "%", "%%"))
+						} else {
+							outF.WriteString("%s")
+							outArgs = append(outArgs, piece)
+						}
+					}
+					changed = true
+				} else {
+					outF.WriteString(verb)
+					if arg != nil {
+						outArgs = append(outArgs, arg)
+					}
+				}
+				i = j
+			}
+			if changed {
+				w.format, w.args = outF.String(), outArgs
+			}
+		}
 		// a line written with Fprintln of strings put together with "+" is the format those pieces spell:
 		// Fprintln(w, "  # "+name+": "+value) writes what Fprintf(w, "  # %s: %s\n", name, value) writes
 		isPrint := callee.String() == "fmt.Fprint"
